@@ -241,6 +241,7 @@ func c20Race(scen string, bound int) vh.Unit {
 		"stop-vs-tick":     {"stop", "tick"},
 		"wait-vs-stop":     {"wait", "stop"},
 		"stop-vs-update":   {"stop", "update"},
+		"stop-vs-start":    {"stop", "start"},
 	}[scen]
 	body := func() {
 		w = c20New()
@@ -276,13 +277,27 @@ func c20Race(scen string, bound int) vh.Unit {
 		}
 	}
 	return vh.Unit{Name: name, Run: func(u *vh.U) {
-		var alive int
+		var alive, aliveAfter int
+		var followErr error
 		vh.RunDFS(u, vh.DFSSpec{
 			Name: name, Bound: bound,
 			Run:  vsched.Options{YieldFiles: []string{"agent.go"}, MaxTime: time.Hour, Delay: true},
-			Body: func() { body(); alive = c20Loops() },
+			Body: func() {
+				body()
+				alive = c20Loops()
+				// follow-up: the agent's own idea of "running" must match the loops that are alive
+				followErr = w.a.Start(w.sp)
+				c20Settle()
+				aliveAfter = c20Loops()
+			},
 			Obs:  func(s *vsched.Sched) string { return fmt.Sprint(res, alive, len(w.sp.updates), w.sp.connects) },
 			Check: func(s *vsched.Sched) (string, string) {
+				if alive >= 1 && (followErr != agent.ErrAlreadyStarted || aliveAfter != alive) {
+					return "lifecycle-race/running-agent-started-again", fmt.Sprintf("%s: %d loop(s) alive after the race (results %v), yet a further Start returned %v and %d loops are alive now", scen, alive, res, followErr, aliveAfter)
+				}
+				if alive == 0 && (followErr != nil || aliveAfter != 1) {
+					return "lifecycle-race/stopped-agent-cannot-restart", fmt.Sprintf("%s: no loop alive after the race (results %v), a further Start returned %v, %d loops alive now", scen, res, followErr, aliveAfter)
+				}
 				switch scen {
 				case "start-start":
 					ok, refused := 0, 0
@@ -295,6 +310,18 @@ func c20Race(scen string, bound int) vh.Unit {
 					}
 					if alive != 1 || ok != 1 || refused != 1 {
 						return "lifecycle-race/two-loops", fmt.Sprintf("two concurrent Start calls returned %v; %d keep-alive loops alive, pool saw %d connects", res, alive, w.sp.connects)
+					}
+				case "stop-vs-start":
+					// a Start racing the Stop of a running agent: either it is refused and nothing runs
+					// any more, or it comes after the stop and exactly one loop runs
+					want := 0
+					if res[1] == nil {
+						want = 1
+					} else if res[1] != agent.ErrAlreadyStarted {
+						return "lifecycle-race/start-during-stop", fmt.Sprintf("Start racing Stop returned %v", res[1])
+					}
+					if alive != want {
+						return "lifecycle-race/two-loops", fmt.Sprintf("Start racing Stop returned %v; %d keep-alive loops alive afterwards, expected %d (pool saw %d connects)", res[1], alive, want, w.sp.connects)
 					}
 				case "start-start-stop", "stop-vs-tick", "wait-vs-stop", "stop-vs-update":
 					if alive != 0 {
@@ -390,7 +417,7 @@ func init() {
 				depth, bound = 8, 3
 			}
 			us := []vh.Unit{c20Histories(depth), c20CLI()}
-			for _, sc := range []string{"start-start", "start-start-stop", "stop-vs-tick", "wait-vs-stop", "stop-vs-update"} {
+			for _, sc := range []string{"start-start", "start-start-stop", "stop-vs-tick", "wait-vs-stop", "stop-vs-update", "stop-vs-start"} {
 				us = append(us, c20Race(sc, bound))
 			}
 			return us
